@@ -43,6 +43,8 @@ def run(ctx, report):
         "fit": ("R-GRID", "3", "fit_to_screen: the box is cut at the 90% edge, a missing width reaches exactly that edge, a "
                                "width that fits is unchanged"),
     })
+    from . import abs_layout_fold
+    report.section("DFXP and SAMI writers on absolute layouts", abs_layout_fold.run, ctx, report, "1", "2")
     report.not_decided.append("numeric results for particular float magnitudes (rounding of floats)")
 
 
